@@ -290,6 +290,32 @@ const chBase2 = `scrape_configs:
   - targets: ['h:1']
 `
 
+// a configuration whose lists have two entries (order is a setting: relabel rules are applied in sequence) and whose
+// top-level sections can be removed one at a time
+const chBase3 = `rule_files:
+- /r/*.yml
+scrape_configs:
+- job_name: ordered
+  relabel_configs:
+  - source_labels: [a]
+    target_label: b
+  - source_labels: [b]
+    target_label: c
+  metric_relabel_configs:
+  - source_labels: [__name__]
+    regex: x_.*
+    action: drop
+  - source_labels: [__name__]
+    regex: y_.*
+    action: drop
+  static_configs:
+  - targets: ['h:1', 'h:2']
+remote_write:
+- url: http://r1/write
+remote_read:
+- url: http://r1/read
+`
+
 type chEdit struct {
 	Base     int
 	Kind     string // format | external | setting
@@ -338,6 +364,12 @@ var chEdits = []chEdit{
 	{0, "setting", "read_recent: true", "read_recent: false", []string{"RemoteReadConfigs", "ReadRecent"}, "rr-bool"},
 	{1, "setting", "regex: a(b+)c", "regex: a(b*)c", []string{"ScrapeConfigs", "RelabelConfigs", "Regex", "original"}, "regex-only-small"},
 	{1, "setting", "'h:1'", "'h:2'", []string{"ScrapeConfigs", "ServiceDiscoveryConfigs", "Targets"}, "small-target"},
+	{2, "setting", "  - source_labels: [a]\n    target_label: b\n  - source_labels: [b]\n    target_label: c\n", "  - source_labels: [b]\n    target_label: c\n  - source_labels: [a]\n    target_label: b\n", nil, "relabel-order"},
+	{2, "setting", "    regex: x_.*\n    action: drop\n  - source_labels: [__name__]\n    regex: y_.*\n", "    regex: y_.*\n    action: drop\n  - source_labels: [__name__]\n    regex: x_.*\n", nil, "metric-relabel-order"},
+	{2, "setting", "  - source_labels: [b]\n    target_label: c\n", "  - source_labels: [a]\n    target_label: b\n", nil, "relabel-second-becomes-copy-of-first"},
+	{2, "setting", "remote_read:\n- url: http://r1/read\n", "", nil, "section-removed-remote-read"},
+	{2, "setting", "remote_write:\n- url: http://r1/write\n", "", nil, "section-removed-remote-write"},
+	{2, "setting", "rule_files:\n- /r/*.yml\n", "", nil, "section-removed-rule-files"},
 	{0, "external", "replica: a", "replica: b", nil, "ext-value"},
 	{0, "external", "    region: eu\n", "", nil, "ext-removed-one"},
 	{0, "external", "    region: eu\n", "    region: eu\n    zone: z1\n", nil, "ext-added"},
@@ -357,12 +389,17 @@ type chCase struct {
 	Edit      int
 	ChildBase bool // which of the two texts is hashed in a child process
 	Noise     int  // additional formatting noise on the edited text
+	// History: the edited text is hashed by a ConfigManager that loaded the base text before (one process reloaded
+	// from the older configuration), the base text by a fresh one: the hash must be a function of the content alone
+	History bool
 }
 type chHashes struct{ Hash, StructHash string }
 type chObs struct {
 	Name                    string
 	HashEqual, StructEqual  bool
 	Hash1, Hash2            string
+	SameAsFresh             bool   // History: hash after the older configuration == hash of a fresh process
+	FreshHash               string `json:",omitempty"`
 	LoadErr                 string
 }
 
@@ -380,6 +417,23 @@ func chCompute(text string) (chHashes, error) {
 		return chHashes{}, err
 	}
 	return chHashes{Hash: info.ConfigHash, StructHash: fmt.Sprint(sh)}, nil
+}
+
+// chComputeAfter: the hash of `text` in a process whose ConfigManager loaded `before` first
+func chComputeAfter(before, text string) (chHashes, error) {
+	m := prom.NewConfigManager()
+	if err := m.ReloadFromRaw([]byte(before)); err != nil {
+		return chHashes{}, err
+	}
+	if err := m.ReloadFromRaw([]byte(text)); err != nil {
+		return chHashes{}, err
+	}
+	h, err := chCompute(text) // the struct-only hash does not depend on the manager
+	if err != nil {
+		return chHashes{}, err
+	}
+	h.Hash = m.ConfigInfo().ConfigHash
+	return h, nil
 }
 
 func chComputeMaybeChild(text string, child bool) (chHashes, error) {
@@ -429,7 +483,7 @@ func ydocTerm(v interface{}) string {
 func cfghashRun(in interface{}) (string, interface{}, map[string]int) {
 	c := in.(*chCase)
 	e := chEdits[c.Edit%len(chEdits)]
-	base := []string{chBase1, chBase2}[e.Base]
+	base := []string{chBase1, chBase2, chBase3}[e.Base]
 	if strings.Count(base, e.Old) != 1 {
 		panic("cfghash: edit anchor not unique: " + e.Name)
 	}
@@ -441,9 +495,20 @@ func cfghashRun(in interface{}) (string, interface{}, map[string]int) {
 		edited = strings.Replace(edited, "scrape_configs:", "\nscrape_configs:   ", 1)
 	}
 	st := map[string]int{"kind_" + e.Kind: 1, "nontrivial": 1}
-	ob := chObs{Name: e.Name}
+	ob := chObs{Name: e.Name, SameAsFresh: true}
 	h1, err1 := chComputeMaybeChild(base, c.ChildBase)
-	h2, err2 := chComputeMaybeChild(edited, !c.ChildBase)
+	var h2 chHashes
+	var err2 error
+	if c.History {
+		h2, err2 = chComputeAfter(base, edited)
+		st["with_history"]++
+		if fresh, errf := chCompute(edited); errf == nil && err2 == nil {
+			ob.FreshHash = fresh.Hash
+			ob.SameAsFresh = fresh.Hash == h2.Hash
+		}
+	} else {
+		h2, err2 = chComputeMaybeChild(edited, !c.ChildBase)
+	}
 	if err1 != nil || err2 != nil {
 		ob.LoadErr = fmt.Sprint(err1, err2)
 		st["load_errors"]++
@@ -455,8 +520,8 @@ func cfghashRun(in interface{}) (string, interface{}, map[string]int) {
 	_ = yaml.Unmarshal([]byte(base), &d1)
 	_ = yaml.Unmarshal([]byte(edited), &d2)
 	kind := map[string]string{"format": "EFormat", "external": "EExternal", "setting": "ESetting"}[e.Kind]
-	term := fmt.Sprintf("{| ch_kind := %s; ch_doc1 := %s;\n   ch_doc2 := %s;\n   ch_hash_equal := %s; ch_path := %s; ch_struct_equal := %s |}",
-		kind, ydocTerm(d1), ydocTerm(d2), cBool(ob.HashEqual), cStrList(e.Path), cBool(ob.StructEqual))
+	term := fmt.Sprintf("{| ch_kind := %s; ch_doc1 := %s;\n   ch_doc2 := %s;\n   ch_hash_equal := %s; ch_path := %s; ch_struct_equal := %s; ch_same_as_fresh := %s |}",
+		kind, ydocTerm(d1), ydocTerm(d2), cBool(ob.HashEqual), cStrList(e.Path), cBool(ob.StructEqual), cBool(ob.SameAsFresh))
 	return term, ob, st
 }
 
@@ -466,7 +531,7 @@ func cfghashGen(r *rand.Rand, idx int, thorough bool) interface{} {
 	if idx >= len(chEdits) {
 		e = r.Intn(len(chEdits))
 	}
-	return &chCase{Edit: e, ChildBase: r.Intn(2) == 0, Noise: r.Intn(3)}
+	return &chCase{Edit: e, ChildBase: r.Intn(2) == 0, Noise: r.Intn(3), History: r.Intn(3) == 0 || (idx >= len(chEdits) && idx < 2*len(chEdits))}
 }
 
 func init() {
